@@ -93,6 +93,16 @@ theorem release_eq (a : ReleaseAtoms) : Extracted.releaseCore a = releaseCore a 
 theorem early_exit_eq (a : ExitAtoms) : Extracted.earlyExitCore a = earlyExitCore a := by
   rcases a with ⟨x, y, z⟩; cases x <;> cases y <;> cases z <;> rfl
 
+theorem iter_changing_eq (a : ChgAtoms) : Extracted.selChangingCore a = selChangingCore a := by
+  rcases a with ⟨a1, a2, a3, a4, a5, a6, a7, a8⟩
+  cases a1 <;> cases a2 <;> cases a3 <;> cases a4 <;> cases a5 <;> cases a6 <;> cases a7 <;> cases a8 <;> rfl
+
+theorem resumed_filter_eq (a : ResumedAtoms) : Extracted.resumedKeepCore a = resumedKeepCore a := by
+  rcases a with ⟨x, y⟩; cases x <;> cases y <;> rfl
+
+theorem apply_touch_eq (a : ApplyAtoms) : Extracted.applyTouchCore a = applyTouchCore a := by
+  rcases a with ⟨x, y, z, w⟩; cases x <;> cases y <;> cases z <;> cases w <;> rfl
+
 theorem selector_parts_eq (a : OptAtoms) :
     Extracted.selGroupCore a = optCore a ∧ Extracted.selKindCore a = optCore a ∧
     Extracted.selPluralCore a = optCore a ∧ Extracted.selSingularCore a = optCore a ∧
